@@ -584,6 +584,9 @@ func (g *Gen) invocationArgs(depth int, setGlue bool) {
 		}
 		g.expr(depth - 1)
 	}
+	if n > 0 {
+		g.gap = ListClose
+	}
 	g.e(")")
 }
 
@@ -653,6 +656,7 @@ func (g *Gen) atom(depth int) {
 			}
 			g.expr(depth - 1)
 		}
+		g.gap = ListClose
 		g.e("]")
 	case 15:
 		g.feat("expr/dictionary")
@@ -665,6 +669,9 @@ func (g *Gen) atom(depth int) {
 			g.expr(depth - 1)
 			g.e(":")
 			g.expr(depth - 1)
+		}
+		if n > 0 {
+			g.gap = ListClose
 		}
 		g.e("}")
 	case 16:
@@ -762,6 +769,9 @@ func (g *Gen) parameterList(defaults bool) {
 			g.e("=")
 			g.e(g.pick("self.id", "1", "\"x\"", "self.owner?.address", "nil", "-1", "1.5", "/public/p", "true"))
 		}
+	}
+	if n > 0 {
+		g.gap = ListClose
 	}
 	g.e(")")
 }
